@@ -3,10 +3,14 @@ package PKGNAME
 // VerifC13Sequence: content, ETag and Last-Modified of an existing version never
 // change under later operations.
 func VerifC13Sequence() {
+	verifExtraOps = []int{8, 10}
+	defer func() { verifExtraOps = []int{8} }()
 	verifVersionsRun(verifParam("steps", 2), true, "C02-latest-promotion-by-created-at", "C13-last-modified-bumped")
 }
 
 // VerifC13AfterEnabledPut: the same from the history  enable . put(v1).
 func VerifC13AfterEnabledPut() {
+	verifExtraOps = []int{8, 10}
+	defer func() { verifExtraOps = []int{8} }()
 	verifVersionsRunFrom([]int{3, 0}, verifParam("steps", 2), true, "C02-latest-promotion-by-created-at", "C13-last-modified-bumped")
 }
